@@ -112,7 +112,8 @@ Inductive op :=
   | OAppend (i : nat) (p : pool) | OMap (i : nat) (f : efun) | OFilter (i : nat) (p : epred)
   | OThub (i n : nat) | OUse (i : nat) | OTee (i n : nat)
   | OThubVal (z : Z) (n : nat) | OTeeVal (z : Z) (n : nat)
-  | OAppendObj (i j : nat).         (* s_i.append(obj_j), obj_j an existing Stream or hub *)
+  | OAppendObj (i j : nat)          (* s_i.append(obj_j), obj_j an existing Stream or hub *)
+  | OMutateResult (m : nat).        (* the caller mutates, in place, the container a take/peek returned *)
 
 Fixpoint set_nth {A} (i : nat) (x : A) (l : list A) : list A :=
   match l, i with
@@ -246,6 +247,7 @@ Definition step (st : state) (o : op) : state * obs :=
           end
       | _ => (st, OBad)
       end
+  | OMutateResult _ => (st, OSelf)   (* returned containers are fresh values: no object changes *)
   end.
 
 Fixpoint run (st : state) (ops : list op) : list obs :=
@@ -262,6 +264,7 @@ Definition target (o : op) : option nat :=
   | OMap i _ | OFilter i _ | OThub i _ | OUse i | OTee i _ => Some i
   | OThubVal _ _ | OTeeVal _ _ => None
   | OAppendObj i _ => Some i
+  | OMutateResult _ => None
   end.
 (* a second object the operation reads / uses up *)
 Definition arg (o : op) : option nat :=
